@@ -15,6 +15,11 @@
 (* "within the window both succeed" clause); without it any goroutine may  *)
 (* lag arbitrarily (used for the safety properties and for traces).        *)
 (*                                                                         *)
+(* AllowDown = TRUE adds the death of the session (the peer process dies,   *)
+(* the connection is cut): from then on opening a stream, writing on one    *)
+(* and reading what is not already buffered fail, and each Run loop ends    *)
+(* when it next asks for a stream.  Calls in flight must still return.      *)
+(*                                                                         *)
 (* FixDrain / FixDrop = FALSE give the behaviour before the fix of the     *)
 (* expiry handler (blocking receive under the lock, dropped stream never   *)
 (* closed); they exist so that TLC can show the model is sensitive.        *)
@@ -27,7 +32,8 @@ CONSTANTS Dials, Accepts,          \* call instances
           ASide(_), AId(_),        \* side that accepts, id accepted
           W, IssueMax, MaxT,
           MaxProgress, FixDrain, FixDrop,
-          MaxNextId
+          MaxNextId,
+          AllowDown                \* the session may die
 
 Sides == {"H", "P"}
 Other(s) == IF s = "H" THEN "P" ELSE "H"
@@ -53,7 +59,8 @@ VARIABLES
   \* accept calls
   apc, aslot, aconn, adl, ares, at, arearm,
   panicked,
-  nid       \* NextId counter per side
+  nid,      \* NextId counter per side
+  down      \* the yamux session is dead
 
 dialv == <<dpc, dres, dt>>
 strv  == <<loc, idw, ackv>>
@@ -61,7 +68,7 @@ runv  == <<rpc, rcur, rslot>>
 brkv  == <<slotOf, sch, sdone, nslots, lock>>
 twv   == <<tpc, tslot, tdl, tto, trearm>>
 accv  == <<apc, aslot, aconn, adl, ares, at, arearm>>
-vars  == <<now, dialv, strv, runv, brkv, twv, accv, panicked, nid>>
+vars  == <<now, dialv, strv, runv, brkv, twv, accv, panicked, nid, down>>
 
 Init ==
   /\ now = 0
@@ -80,6 +87,7 @@ Init ==
   /\ arearm = [a \in Accepts |-> FALSE]
   /\ panicked = FALSE
   /\ nid = [s \in Sides |-> 0]
+  /\ down = FALSE
 
 (***************************************************************************)
 (* getStream(id) on side s: the slot under id, created if absent.  The     *)
@@ -101,15 +109,22 @@ GetStream(s, id, k) ==
 (*           -> read ack -> mux.dial.ack                                    *)
 
 DialOpen_(d) ==           \* call.dial, mux.dial.opened
-  /\ dpc[d] = "new"
-  /\ dpc' = [dpc EXCEPT ![d] = "opened"] /\ dt' = [dt EXCEPT ![d] = now]
-  /\ loc' = [loc EXCEPT ![d] = "wire"]
-  /\ UNCHANGED <<dres, idw, ackv, runv, brkv, twv, accv, panicked, nid>>
+  /\ dpc[d] = "new" /\ dt' = [dt EXCEPT ![d] = now]
+  /\ IF down
+     THEN \* OpenStream fails: Dial returns the error
+          /\ dpc' = [dpc EXCEPT ![d] = "ret"] /\ dres' = [dres EXCEPT ![d] = "eof"] /\ UNCHANGED loc
+     ELSE /\ dpc' = [dpc EXCEPT ![d] = "opened"] /\ loc' = [loc EXCEPT ![d] = "wire"] /\ UNCHANGED dres
+  /\ UNCHANGED <<idw, ackv, runv, brkv, twv, accv, panicked, nid>>
 
 DialWrite_(d) ==          \* mux.dial.wrote
-  /\ dpc[d] = "opened" /\ d \notin AbortDials
+  /\ dpc[d] = "opened" /\ d \notin AbortDials /\ ~down
   /\ dpc' = [dpc EXCEPT ![d] = "wrote"] /\ idw' = [idw EXCEPT ![d] = TRUE]
   /\ UNCHANGED <<dres, dt, loc, ackv, runv, brkv, twv, accv, panicked, nid>>
+
+DialWriteFail_(d) ==      \* mux.dial.wrote b=0: the session died before the id could be written
+  /\ dpc[d] = "opened" /\ d \notin AbortDials /\ down
+  /\ dpc' = [dpc EXCEPT ![d] = "ret"] /\ dres' = [dres EXCEPT ![d] = "eof"]
+  /\ UNCHANGED <<dt, strv, runv, brkv, twv, accv, panicked, nid>>
 
 DialAbort_(d) ==          \* the peer closes the stream it opened without writing an id
   /\ d \in AbortDials /\ dpc[d] = "opened"
@@ -120,7 +135,7 @@ DialAck_(d) ==            \* mux.dial.ack, ret.dial
   /\ dpc[d] = "wrote"
   /\ \/ /\ ackv[d] # 0
         /\ dres' = [dres EXCEPT ![d] = IF ackv[d] = DId(d) THEN "ok" ELSE "badack"]
-     \/ /\ ackv[d] = 0 /\ loc[d] = "closed"
+     \/ /\ ackv[d] = 0 /\ (loc[d] = "closed" \/ down)
         /\ dres' = [dres EXCEPT ![d] = "eof"]
   /\ dpc' = [dpc EXCEPT ![d] = "ret"]
   /\ UNCHANGED <<dt, strv, runv, brkv, twv, accv, panicked, nid>>
@@ -149,10 +164,15 @@ RunId_(s) ==              \* mux.run.id
   /\ UNCHANGED <<dialv, strv, rcur, rslot, brkv, twv, accv, panicked, nid>>
 
 RunIdFail_(s) ==          \* mux.run.id b=0: reading the id failed, the stream is closed, the loop goes on
-  /\ rpc[s] = "stream" /\ dres[rcur[s]] = "aborted"
+  /\ rpc[s] = "stream" /\ (dres[rcur[s]] = "aborted" \/ (down /\ ~idw[rcur[s]]))
   /\ loc' = [loc EXCEPT ![rcur[s]] = "closed"]
   /\ rpc' = [rpc EXCEPT ![s] = "accept"] /\ rcur' = [rcur EXCEPT ![s] = None]
   /\ UNCHANGED <<dialv, idw, ackv, rslot, brkv, twv, accv, panicked, nid>>
+
+RunExit_(s) ==            \* mux.run.exit: AcceptStream fails, the loop ends
+  /\ rpc[s] = "accept" /\ down
+  /\ rpc' = [rpc EXCEPT ![s] = "exit"]
+  /\ UNCHANGED <<dialv, strv, rcur, rslot, brkv, twv, accv, panicked, nid>>
 
 RunSlot_(s) ==            \* mux.getstream, mux.run.slot
   /\ rpc[s] = "id"
@@ -248,10 +268,16 @@ AcceptClose_(a) ==        \* close(p.doneCh); mux.accept.closed
   /\ UNCHANGED <<dialv, strv, runv, slotOf, sch, nslots, lock, twv, aslot, aconn, adl, ares, at, arearm, nid>>
 
 AcceptAck_(a) ==          \* write ack; mux.accept.ack b=1, ret.accept ok
-  /\ apc[a] = "closed"
+  /\ apc[a] = "closed" /\ ~down
   /\ ackv' = [ackv EXCEPT ![aconn[a]] = AId(a)]
   /\ ares' = [ares EXCEPT ![a] = "ok"] /\ apc' = [apc EXCEPT ![a] = "ret"]
   /\ UNCHANGED <<dialv, loc, idw, runv, brkv, twv, aslot, aconn, adl, at, arearm, panicked, nid>>
+
+AcceptAckFail_(a) ==      \* mux.accept.ack b=0: the ack cannot be written, the stream is closed, ret.accept err
+  /\ apc[a] = "closed" /\ down
+  /\ loc' = [loc EXCEPT ![aconn[a]] = "closed"]
+  /\ ares' = [ares EXCEPT ![a] = "err"] /\ apc' = [apc EXCEPT ![a] = "ret"]
+  /\ UNCHANGED <<dialv, idw, ackv, runv, brkv, twv, aslot, aconn, adl, at, arearm, panicked, nid>>
 
 AcceptTimeout_(a) ==      \* mux.accept.timeout
   /\ apc[a] = "wait" /\ now >= adl[a]
@@ -271,30 +297,39 @@ NextId_(s) ==             \* atomic.AddUint32
   /\ UNCHANGED <<dialv, strv, runv, brkv, twv, accv, panicked>>
 
 -----------------------------------------------------------------------------
+SessionDown_ ==           \* the connection is cut / the peer process dies
+  /\ AllowDown /\ ~down /\ down' = TRUE
+  /\ UNCHANGED <<dialv, strv, runv, brkv, twv, accv, panicked, nid>>
+
 (* Every action leaves the clock alone; only Tick advances it. *)
-DialOpen(d) == DialOpen_(d) /\ UNCHANGED now
-DialWrite(d) == DialWrite_(d) /\ UNCHANGED now
-DialAck(d) == DialAck_(d) /\ UNCHANGED now
-DialAbort(d) == DialAbort_(d) /\ UNCHANGED now
-RunIdFail(s) == RunIdFail_(s) /\ UNCHANGED now
-RunSpawn(s) == RunSpawn_(s) /\ UNCHANGED now
-RunStream(s, d) == RunStream_(s, d) /\ UNCHANGED now
-RunId(s) == RunId_(s) /\ UNCHANGED now
-RunSlot(s) == RunSlot_(s) /\ UNCHANGED now
-RunPark(s) == RunPark_(s) /\ UNCHANGED now
-TWRearm(d) == TWRearm_(d) /\ UNCHANGED now
-TWWakeDone(d) == TWWakeDone_(d) /\ UNCHANGED now
-TWWakeTimeout(d) == TWWakeTimeout_(d) /\ UNCHANGED now
-TWFinish(d) == TWFinish_(d) /\ UNCHANGED now
-TWUnstick(d) == TWUnstick_(d) /\ UNCHANGED now
-AcceptSlot(a) == AcceptSlot_(a) /\ UNCHANGED now
-AcceptRearm(a) == AcceptRearm_(a) /\ UNCHANGED now
-AcceptTake(a) == AcceptTake_(a) /\ UNCHANGED now
-AcceptClose(a) == AcceptClose_(a) /\ UNCHANGED now
-AcceptAck(a) == AcceptAck_(a) /\ UNCHANGED now
-AcceptTimeout(a) == AcceptTimeout_(a) /\ UNCHANGED now
-AcceptDelete(a) == AcceptDelete_(a) /\ UNCHANGED now
-NextId(s) == NextId_(s) /\ UNCHANGED now
+DialOpen(d) == DialOpen_(d) /\ UNCHANGED <<now, down>>
+DialWrite(d) == DialWrite_(d) /\ UNCHANGED <<now, down>>
+DialAck(d) == DialAck_(d) /\ UNCHANGED <<now, down>>
+DialAbort(d) == DialAbort_(d) /\ UNCHANGED <<now, down>>
+RunIdFail(s) == RunIdFail_(s) /\ UNCHANGED <<now, down>>
+RunSpawn(s) == RunSpawn_(s) /\ UNCHANGED <<now, down>>
+RunStream(s, d) == RunStream_(s, d) /\ UNCHANGED <<now, down>>
+RunId(s) == RunId_(s) /\ UNCHANGED <<now, down>>
+RunSlot(s) == RunSlot_(s) /\ UNCHANGED <<now, down>>
+RunPark(s) == RunPark_(s) /\ UNCHANGED <<now, down>>
+TWRearm(d) == TWRearm_(d) /\ UNCHANGED <<now, down>>
+TWWakeDone(d) == TWWakeDone_(d) /\ UNCHANGED <<now, down>>
+TWWakeTimeout(d) == TWWakeTimeout_(d) /\ UNCHANGED <<now, down>>
+TWFinish(d) == TWFinish_(d) /\ UNCHANGED <<now, down>>
+TWUnstick(d) == TWUnstick_(d) /\ UNCHANGED <<now, down>>
+AcceptSlot(a) == AcceptSlot_(a) /\ UNCHANGED <<now, down>>
+AcceptRearm(a) == AcceptRearm_(a) /\ UNCHANGED <<now, down>>
+AcceptTake(a) == AcceptTake_(a) /\ UNCHANGED <<now, down>>
+AcceptClose(a) == AcceptClose_(a) /\ UNCHANGED <<now, down>>
+AcceptAck(a) == AcceptAck_(a) /\ UNCHANGED <<now, down>>
+AcceptTimeout(a) == AcceptTimeout_(a) /\ UNCHANGED <<now, down>>
+AcceptDelete(a) == AcceptDelete_(a) /\ UNCHANGED <<now, down>>
+NextId(s) == NextId_(s) /\ UNCHANGED <<now, down>>
+DialWriteFail(d) == DialWriteFail_(d) /\ UNCHANGED <<now, down>>
+RunExit(s) == RunExit_(s) /\ UNCHANGED <<now, down>>
+AcceptAckFail(a) == AcceptAckFail_(a) /\ UNCHANGED <<now, down>>
+SessionDown == SessionDown_ /\ UNCHANGED now
+EnvDown == now <= IssueMax /\ SessionDown
 EnvDial(d) == now <= IssueMax /\ DialOpen(d)
 EnvAccept(a) == now <= IssueMax /\ AcceptSlot(a)
 LagTW(d) == ~MaxProgress /\ TWRearm(d)
@@ -302,24 +337,25 @@ LagAccept(a) == ~MaxProgress /\ AcceptRearm(a)
 
 \* Steps that take no time once enabled
 Instant ==
-  \/ \E d \in Dials : DialWrite(d) \/ DialAck(d) \/ DialAbort(d) \/ TWWakeDone(d) \/ TWWakeTimeout(d) \/ TWFinish(d) \/ TWUnstick(d)
-  \/ \E s \in Sides : RunSpawn(s) \/ RunId(s) \/ RunIdFail(s) \/ RunSlot(s) \/ RunPark(s) \/ (\E d \in Dials : RunStream(s, d))
-  \/ \E a \in Accepts : AcceptTake(a) \/ AcceptClose(a) \/ AcceptAck(a) \/ AcceptTimeout(a) \/ AcceptDelete(a)
+  \/ \E d \in Dials : DialWrite(d) \/ DialWriteFail(d) \/ DialAck(d) \/ DialAbort(d) \/ TWWakeDone(d) \/ TWWakeTimeout(d) \/ TWFinish(d) \/ TWUnstick(d)
+  \/ \E s \in Sides : RunSpawn(s) \/ RunId(s) \/ RunIdFail(s) \/ RunExit(s) \/ RunSlot(s) \/ RunPark(s) \/ (\E d \in Dials : RunStream(s, d))
+  \/ \E a \in Accepts : AcceptTake(a) \/ AcceptClose(a) \/ AcceptAck(a) \/ AcceptAckFail(a) \/ AcceptTimeout(a) \/ AcceptDelete(a)
 
 Tick ==
   /\ now < MaxT
   /\ MaxProgress => ~ENABLED Instant
   /\ now' = now + 1
-  /\ UNCHANGED <<dialv, strv, runv, brkv, twv, accv, panicked, nid>>
+  /\ UNCHANGED <<dialv, strv, runv, brkv, twv, accv, panicked, nid, down>>
 
 \* a flat disjunction of named actions, so that TLC's graph dump labels every edge Action(args)
 Next ==
-  \/ \E d \in Dials : \/ EnvDial(d) \/ DialWrite(d) \/ DialAck(d) \/ DialAbort(d)
+  \/ \E d \in Dials : \/ EnvDial(d) \/ DialWrite(d) \/ DialWriteFail(d) \/ DialAck(d) \/ DialAbort(d)
                        \/ TWWakeDone(d) \/ TWWakeTimeout(d) \/ TWFinish(d) \/ TWUnstick(d) \/ LagTW(d)
-  \/ \E s \in Sides : \/ RunSpawn(s) \/ RunId(s) \/ RunIdFail(s) \/ RunSlot(s) \/ RunPark(s) \/ NextId(s)
+  \/ \E s \in Sides : \/ RunSpawn(s) \/ RunId(s) \/ RunIdFail(s) \/ RunExit(s) \/ RunSlot(s) \/ RunPark(s) \/ NextId(s)
                        \/ \E d \in Dials : RunStream(s, d)
-  \/ \E a \in Accepts : \/ EnvAccept(a) \/ AcceptTake(a) \/ AcceptClose(a) \/ AcceptAck(a)
+  \/ \E a \in Accepts : \/ EnvAccept(a) \/ AcceptTake(a) \/ AcceptClose(a) \/ AcceptAck(a) \/ AcceptAckFail(a)
                          \/ AcceptTimeout(a) \/ AcceptDelete(a) \/ LagAccept(a)
+  \/ EnvDown
   \/ Tick
 
 Spec == Init /\ [][Next]_vars /\ WF_vars(Instant) /\ WF_vars(Tick)
@@ -330,7 +366,10 @@ Spec == Init /\ [][Next]_vars /\ WF_vars(Instant) /\ WF_vars(Tick)
 TypeOK ==
   /\ now \in 0..MaxT
   /\ \A d \in Dials : loc[d] \in {"none", "wire", "run", "slot", "acc", "closed", "dropped"}
-  /\ \A s \in Sides : lock[s] \in {"free"} \cup Dials
+  /\ \A s \in Sides : lock[s] \in {"free"} \cup Dials /\ rpc[s] \in {"accept", "stream", "id", "slot", "park", "exit"}
+  /\ down \in BOOLEAN
+\* a dead session: nothing is reported as established afterwards that was not acknowledged before
+DownMeansNoNewAck == [][down => ackv' = ackv]_vars
 
 \* C06: a connection returned by Accept(n) is the one dialled with Dial(n), from the other side,
 \* and no stream is handed to two acceptors.
@@ -367,7 +406,7 @@ Sole(a, d) == /\ AId(a) = DId(d) /\ ASide(a) = Other(DSide(d)) /\ d \notin Abort
 InWindow(a, d) == at[a] >= 0 /\ dt[d] >= 0 /\ at[a] - dt[d] < W /\ dt[d] - at[a] < W
 WindowSuccess ==
   \A a \in Accepts, d \in Dials :
-    (Sole(a, d) /\ InWindow(a, d) /\ Quiesced) => (ares[a] = "ok" /\ dres[d] = "ok" /\ aconn[a] = d)
+    (Sole(a, d) /\ InWindow(a, d) /\ Quiesced /\ ~down) => (ares[a] = "ok" /\ dres[d] = "ok" /\ aconn[a] = d)
 
 \* an accept never returns later than W after its select started; a dial whose stream was
 \* handled returns no later than the expiry of its slot (checked as: nothing stuck at the end)
